@@ -39,9 +39,9 @@ class StructuredRecord(object):
 
     @classmethod
     def _get_regex(cls):
-        if cls._regex is None:
+        if cls.__dict__.get("_regex") is None:
             cls._regex = DNARegex(cls.structure())
-        return cls._regex
+        return cls.__dict__["_regex"]
 
     @cached_property
     def _match(self):
